@@ -128,7 +128,9 @@ class Ctx(object):
     def search(self, strategy, run_case, max_examples, nontrivial=lambda case: True, labels=lambda case: (),
                name="search", max_rounds=4, stateful_steps=None, shrink=True):
         import hypothesis
+        import warnings
         from hypothesis import given, settings, HealthCheck, Phase
+        warnings.filterwarnings("ignore", category=hypothesis.errors.HypothesisWarning)
         found = set()
         ctx = self
         for _round in range(max_rounds):
